@@ -108,10 +108,12 @@ def h_interp(H):
                     Sv = Sx["out"]()
                     it.ctx.oblige("interp.convex.sum_over_sources", z3.And(A.T(Sx["in_shape"][0]) == m, A.forall([c], lambda: z3.Implies(z3.And(c >= 0, c < m), Sx["input"]((c,)) == wfinal.read((src(c),))))), "post",
                                   "the normalising sum runs over exactly the sources' weights")
-                    # A-NP-SPEC (sum), stated for this one sum: a sum of non-negative terms is at least its first term
-                    cq = z3.Int(fresh_name("cq"))
-                    it.ctx.assume(z3.Implies(z3.And(m >= 1, z3.ForAll([cq], z3.Implies(z3.And(cq >= 0, cq < m), Sx["input"]((cq,)) >= 0))), Sv >= Sx["input"]((z3.IntVal(0),))))
                     it.ctx.oblige("interp.convex.sources_positive", A.forall([c], lambda: z3.Implies(z3.And(c >= 0, c < m), wfinal.read((src(c),)) > 0)), "post")
+                    it.ctx.oblige("interp.convex.summands_non_negative", A.forall([c], lambda: z3.Implies(z3.And(c >= 0, c < m), Sx["input"]((c,)) >= 0)), "lemma",
+                                  "antecedent of the sum axiom used below")
+                    # A-NP-SPEC (sum), stated for this one sum: a sum of non-negative terms (just proved) is at least its first term
+                    it.ctx.assume(z3.Implies(m >= 1, Sv >= Sx["input"]((z3.IntVal(0),))))
+                    it.ctx.oblige("interp.convex.first_summand_positive", z3.Implies(m >= 1, Sx["input"]((z3.IntVal(0),)) > 0), "lemma")
                     it.ctx.oblige("interp.convex.sum_positive", Sv > 0, "post", "the normalising sum is positive (at least one source, all source weights positive)")
                     it.ctx.oblige("interp.convex.coefficients", A.forall([c], lambda: z3.Implies(z3.And(c >= 0, c < m), z3.And(mm[0]["a"]((c,)) > 0, mm[0]["a"]((c,)) * Sv == wfinal.read((src(c),))))), "post",
                                   "each coefficient is positive and equals weight / sum of the sources' weights: the coefficients sum to one", assume=False)
